@@ -67,6 +67,7 @@ def ShapeOK (a : Air) (c : Config) (pp : ProofWithPis) (db nh nz : Nat) : Prop :
     pp.proof.openings.ctlZsFirst.isSome = a.requiresCtls ∧
     pp.proof.openings.localValues.length = a.cols ∧
     pp.proof.openings.nextValues.length = a.cols ∧
+    pp.proof.openings.quotientPolys.isSome = decide (0 < numQuotientPolys a c) ∧
     (pp.proof.openings.quotientPolys.getD []).length = numQuotientPolys a c ∧
     AuxOK a c pp.proof nlc nh nz
 
@@ -86,9 +87,9 @@ theorem quotientCap_check_iff (a : Air) (c : Config) (qc : Option (List Merkle.D
 
 theorem quotientPolys_check_iff (a : Air) (c : Config) (qp : Option (List GL2)) :
     (match qp with
-      | some q => ensure (q.length == numQuotientPolys a c)
+      | some q => ensure (0 < numQuotientPolys a c && q.length == numQuotientPolys a c)
       | none => ensure (numQuotientPolys a c == 0)) = Verdict.accept ↔
-    (qp.getD []).length = numQuotientPolys a c := by
+    (qp.isSome = decide (0 < numQuotientPolys a c) ∧ (qp.getD []).length = numQuotientPolys a c) := by
   cases qp with
   | none => simp [ensure_accept_iff]; omega
   | some q => simp [ensure_accept_iff]
@@ -111,10 +112,187 @@ theorem validateShape_accept_iff (a : Air) (c : Config) (pp : ProofWithPis) (db 
         constructor
         · rintro ⟨h1, h2, h3, h4, h5, h6, h7⟩
           have h2' := (quotientCap_check_iff a c _).1 h2
-          exact ⟨h1, h2'.1, h2'.2, h3, h4, h5, (quotientPolys_check_iff a c _).1 h6, h7⟩
-        · rintro ⟨h1, h2, h2', h3, h4, h5, h6, h7⟩
+          have h6' := (quotientPolys_check_iff a c _).1 h6
+          exact ⟨h1, h2'.1, h2'.2, h3, h4, h5, h6'.1, h6'.2, h7⟩
+        · rintro ⟨h1, h2, h2', h3, h4, h5, h6, h6', h7⟩
           exact ⟨h1, (quotientCap_check_iff a c _).2 ⟨h2, h2'⟩, h3, h4, h5,
-            (quotientPolys_check_iff a c _).2 h6, h7⟩
+            (quotientPolys_check_iff a c _).2 ⟨h6, h6'⟩, h7⟩
   · simp [hp]
+
+/-! ### the decision logic after shape validation -/
+
+theorem gl2_beq_iff (x y : GL2) : (x == y) = true ↔ x = y := by
+  cases x; cases y
+  show (_ == _ && _ == _) = true ↔ _
+  simp only [Bool.and_eq_true, beq_iff_eq, GL2.mk.injEq]
+
+/-- the lookup variables `verify_stark_proof_with_challenges` hands to `eval_vanishing_poly`
+(the inline `let lookupVars` of the model) -/
+def lookupVarsOf (a : Air) (ch : Challenges) (o : OpeningSet) (nlc : Nat) :
+    Except String (Option (List GL2 × List GL2 × List GL)) :=
+  if a.usesLookups then
+    match ch.lookupSet, o.auxPolys, o.auxPolysNext with
+    | some ls, some aux, some auxNext =>
+      if aux.length < nlc ∨ auxNext.length < nlc then .error "aux slice" else
+      .ok (some (aux.take nlc, auxNext.take nlc, ls.map (·.1)))
+    | _, _, _ => .error "unwrap"
+  else .ok none
+
+/-- the chunks of quotient openings, one per challenge -/
+def quotientChunks (a : Air) (o : OpeningSet) : List (List GL2) :=
+  match o.quotientPolys with
+  | some q => chunksOf a.quotientDegreeFactor q
+  | none => []
+
+/-- the Merkle caps handed to the FRI verifier -/
+def friCaps (p : Proof) : List (List Merkle.Digest) :=
+  [p.traceCap] ++ p.auxCap.toList ++ p.quotientCap.toList
+
+theorem identity_accept_iff (chunks : List (List GL2)) (vanishing : List GL2) (zH zpd : GL2) :
+    firstBad ((chunks.zipIdx).map fun (chunk, i) =>
+      match vanishing[i]? with
+      | none => Verdict.panic "vanishing_polys_zeta index"
+      | some v => if v == zH * Fri.reduceExt chunk zpd then Verdict.accept else Verdict.reject "identity")
+      = .accept ↔
+    ∀ (i : Nat) (chunk : List GL2), chunks[i]? = some chunk → vanishing[i]? = some (zH * Fri.reduceExt chunk zpd) := by
+  rw [firstBad_accept_iff]
+  simp only [List.mem_map, forall_exists_index, and_imp, Prod.forall, List.mem_zipIdx_iff_getElem?]
+  constructor
+  · intro h i chunk hc
+    have := h _ chunk i hc rfl
+    cases hv : vanishing[i]? with
+    | none => simp [hv] at this
+    | some v =>
+      simp only [hv] at this
+      split at this
+      · rename_i he; rw [(gl2_beq_iff _ _).1 he]
+      · cases this
+  · intro h v chunk i hc hv
+    rw [← hv, h i chunk hc]
+    exact if_pos ((gl2_beq_iff _ _).2 rfl)
+
+theorem identityThenFri_accept_iff (a : Air) (c : Config) (pp : ProofWithPis) (ch : Challenges)
+    (vanishing : List GL2) (zpd zH : GL2) (nlc : Nat) (fp : Fri.FriParams) (db nh nz : Nat) :
+    verifyWithChallenges.identityThenFri a c pp ch vanishing zpd zH a.quotientDegreeFactor nlc fp db nh nz
+      = .accept ↔
+    (∀ (i : Nat) (chunk : List GL2), (quotientChunks a pp.proof.openings)[i]? = some chunk →
+        vanishing[i]? = some (zH * Fri.reduceExt chunk zpd)) ∧
+    pp.proof.openingProof.commitCaps.length = fp.arityBits.length ∧ fp.totalArities ≤ db ∧
+    Fri.verify (friInstance a c ch.zeta (GL.primitiveRoot db) nlc nh nz) pp.proof.openings.toFriOpenings
+      ch.fri (friCaps pp.proof) pp.proof.openingProof fp = .accept := by
+  unfold verifyWithChallenges.identityThenFri
+  simp only []
+  rw [← identity_accept_iff]
+  split
+  · rename_i hid
+    have hid' : firstBad _ = Verdict.accept := hid
+    simp only [quotientChunks, friCommitCapsCountChecked, Bool.true_and, bne_iff_ne, ne_eq,
+      ite_not, friCaps]
+    by_cases h1 : pp.proof.openingProof.commitCaps.length = fp.arityBits.length
+    · by_cases h2 : db < fp.totalArities
+      · simp only [h1, h2, if_true, reduceCtorEq, true_and, false_iff, not_and]
+        intro _ hle; omega
+      · simp only [h1, h2, if_true, if_false, true_and, Nat.le_of_not_lt h2]
+        exact ⟨fun h => ⟨hid', h⟩, fun h => h.2⟩
+    · simp [h1]
+  · rename_i v hv
+    constructor
+    · intro h; exact absurd h (hv · )
+    · intro h; exact absurd h.1 hv
+
+/-- `num_ctl_z_polys` as `verify_stark_proof_with_challenges` computes it -/
+def ctlZsCount (ctlVars : Option (List CtlVars)) : Nat := (ctlVars.map (·.length)).getD 0
+/-- `num_ctl_polys` (helper columns) as `verify_stark_proof_with_challenges` computes it -/
+def ctlHelpersCount (ctlVars : Option (List CtlVars)) : Nat :=
+  (ctlVars.map fun cv => cv.foldl (fun acc v => acc + v.helperColumns.length) 0).getD 0
+
+theorem frameCheck_of_shape (a : Air) (c : Config) (pp : ProofWithPis) (db nh nz : Nat)
+    (h : validateShape a c pp db nh nz = .accept) :
+    frameCheck a pp.proof.openings.localValues pp.proof.openings.nextValues pp.publicInputs = .ok () := by
+  rw [validateShape_accept_iff] at h
+  obtain ⟨h1, _, nlc, _, _, _, _, _, h2, h3, _⟩ := h
+  unfold frameCheck
+  rw [if_pos ⟨h2, h3, h1⟩]
+
+/-- after the repair of the `chunks(0)` panic: shape validation accepts quotient openings only for
+an AIR with quotient polynomials, so `quotient_degree_factor ≠ 0` whenever they are present -/
+theorem qdf_ne_zero_of_shape (a : Air) (c : Config) (pp : ProofWithPis) (db nh nz : Nat)
+    (h : validateShape a c pp db nh nz = .accept) (hq : pp.proof.openings.quotientPolys.isSome = true) :
+    a.quotientDegreeFactor ≠ 0 := by
+  rw [validateShape_accept_iff] at h
+  obtain ⟨_, _, nlc, _, _, _, _, _, _, _, h2, _⟩ := h
+  rw [hq] at h2
+  have : 0 < numQuotientPolys a c := by simpa using h2.symm
+  intro h0
+  simp [numQuotientPolys, h0] at this
+
+/-- everything `verify_stark_proof_with_challenges` does after shape validation, as a proposition -/
+def AfterShape (a : Air) (c : Config) (pp : ProofWithPis) (ch : Challenges)
+    (ctlVars : Option (List CtlVars)) (db : Nat) : Prop :=
+  ∃ s nlc fp lv vanishing,
+    consumerAt ch.alphas db ch.zeta = .ok s ∧
+    numLookupHelperColumns a c = some nlc ∧ c.friParams db = some fp ∧
+    lookupVarsOf a ch pp.proof.openings nlc = .ok lv ∧
+    evalVanishingPoly a pp.proof.openings.localValues pp.proof.openings.nextValues pp.publicInputs lv
+      ctlVars s = some vanishing ∧
+    (∀ (i : Nat) (chunk : List GL2), (quotientChunks a pp.proof.openings)[i]? = some chunk →
+      vanishing[i]? = some ((FOps.pow ch.zeta (2 ^ db) - FOps.one) *
+        Fri.reduceExt chunk (FOps.pow ch.zeta (2 ^ db)))) ∧
+    pp.proof.openingProof.commitCaps.length = fp.arityBits.length ∧ fp.totalArities ≤ db ∧
+    Fri.verify (friInstance a c ch.zeta (GL.primitiveRoot db) nlc (ctlHelpersCount ctlVars)
+        (ctlZsCount ctlVars)) pp.proof.openings.toFriOpenings ch.fri (friCaps pp.proof)
+      pp.proof.openingProof fp = .accept
+
+theorem verifyWithChallenges_accept_iff (a : Air) (c : Config) (pp : ProofWithPis) (ch : Challenges)
+    (ctlVars : Option (List CtlVars)) :
+    verifyWithChallenges a c pp ch ctlVars = .accept ↔
+      ∃ db, recoverDegreeBits pp.proof c = .ok db ∧
+        validateShape a c pp db (ctlHelpersCount ctlVars) (ctlZsCount ctlVars) = .accept ∧
+        AfterShape a c pp ch ctlVars db := by
+  unfold verifyWithChallenges
+  simp only []
+  cases hdb : recoverDegreeBits pp.proof c with
+  | error e => simp
+  | ok db =>
+    simp only [Except.ok.injEq, exists_eq_left']
+    change (match validateShape a c pp db (ctlHelpersCount ctlVars) (ctlZsCount ctlVars) with
+      | .accept => _ | v => v) = _ ↔ _
+    cases hs : validateShape a c pp db (ctlHelpersCount ctlVars) (ctlZsCount ctlVars) with
+    | reject e => simp
+    | panic e => simp
+    | accept =>
+      simp only [true_and, frameCheck_of_shape a c pp db _ _ hs]
+      unfold AfterShape
+      cases hc : consumerAt ch.alphas db ch.zeta with
+      | error e => simp
+      | ok s =>
+        cases hn : numLookupHelperColumns a c with
+        | none => simp
+        | some nlc =>
+          cases hf : c.friParams db with
+          | none => simp
+          | some fp =>
+            simp only [Except.ok.injEq, Option.some.injEq, exists_eq_left', exists_and_left]
+            change (match lookupVarsOf a ch pp.proof.openings nlc with
+              | .error e => Verdict.panic e | .ok lv => _) = _ ↔ _
+            cases hl : lookupVarsOf a ch pp.proof.openings nlc with
+            | error e => simp
+            | ok lv =>
+              simp only [Except.ok.injEq, exists_eq_left']
+              cases hv : evalVanishingPoly a pp.proof.openings.localValues pp.proof.openings.nextValues
+                  pp.publicInputs lv ctlVars s with
+              | none => simp
+              | some vanishing =>
+                simp only [Option.some.injEq, exists_eq_left']
+                cases hq : pp.proof.openings.quotientPolys with
+                | none =>
+                  simp only []
+                  rw [identityThenFri_accept_iff]
+                  exact Iff.rfl
+                | some q =>
+                  have hz := qdf_ne_zero_of_shape a c pp db _ _ hs (by rw [hq]; rfl)
+                  simp only [hz, if_false]
+                  rw [identityThenFri_accept_iff]
+                  exact Iff.rfl
 
 end P2.Lemmas.Stark
